@@ -93,6 +93,10 @@ class ProgGen(object):
         r = self.r
         parts = []
         used = set()
+        if r.random() < 0.06:
+            # an empty replacement text (a macro that only gobbles its arguments), or one that is a single blank
+            self.features.add('empty-body')
+            return r.choice(['', '', ' '])
         for _ in range(r.randint(1, 5)):
             k = r.random()
             if k < 0.45 or (not nparams and k < 0.6):
